@@ -28,6 +28,18 @@ CHECKS = {
  'C08': dict(
     text='One check / one ping is executed from an arbitrary in-memory context (counter, times, interval symbolic at full width), which is the inductive step for histories of any length: counter and last-contact rules per error class, final announcements, persist+commit before return; the three context keys are written only by Context::persist from one context, and persist/load are inverse at microsecond precision for every context, so with the Storage contract (atomic commit) a crash at any instant leaves the last commit.',
     note=SM_NOTE + ' Storage implementations\' atomicity is assumed (trait contract).', design='4/C08', technique=PATHS),
+ 'C03': dict(
+    text='All paths of StandardCupv2Handler::decorate_request (one fresh nonce, cup2key = format(latest key id, that nonce) appended to the parsed request URI and written back, metadata = body serialised from the same request + same id + same nonce, error mapping) and of RequestBuilder::build with and without a handler (the Intermediate decorated is the one converted into the HTTP request: decorated URI = request URI, body seen by the handler = body serialised for the wire, metadata returned = the handler\'s); fresh request id / constant session id per attempt from the attempt-loop exploration.',
+    note=SM_NOTE + ' Outside: URL algebra of append_query_parameter (http::Uri), RNG quality.', design='4/C03', technique=PATHS),
+ 'C09': dict(
+    text='Cohort::update_from_omaha for all present/empty/absent combinations and all strings; AppSetExt::update_from_omaha routing by app id for app sets and response lists up to 2x2 (quick) / 3x3 (thorough) with symbolic ids (duplicates and unknown ids occur); App::load fills exactly the unset fields for every stored record outcome; App::persist writes (cohort, user counting) under the app id; wire mapping of cohort and ping dates; update only on successful check/ping (start_update_check / ping_omaha explorations).',
+    note=SM_NOTE + ' Outside: JSON text of PersistedApp (serde_json calls are events).', design='4/C09', technique=PATHS),
+ 'C15': dict(
+    text='The real RequestBuilder code is executed for every sequence of up to 3 (quick) / 4 (thorough) add_update_check / add_ping / add_event calls over 2 / 3 apps with symbolic (possibly equal) ids, then build_intermediate: entries unique by id in first-insertion order keeping the first insertion\'s app data, headers (content type, updater, fg iff on-demand, first app id), request fields from config/params/ids, per-app wire mapping, builder unchanged; HTTP request assembly (POST, headers in order, body = serialisation of the body); serde renames/skip rules read from the source.',
+    note=SM_NOTE + ' Outside: bytes rendered by serde_json / hyper; the serde-attributes obligation is a source-text check, not a solver query.', design='4/C15', technique=PATHS),
+ 'C20': dict(
+    text='Ordering/equality = lexicographic on the numeric 4-tuple and From<[u32;1..4]> zero-fill for all u32^4 values by Kani/CBMC over the compiled crate; Version::from_str on every ASCII string up to 8 (quick) / 11 (thorough) bytes equals the grammar (1-4 dot-separated [+]digits parts <= u32::MAX, zero-filled) with no panic, by symbolic execution of its MIR over all lengths and separator positions; print/serde delegation checked on the MIR call structure and against the real code on concrete strings.',
+    note='Trusted: Kani 0.68/CBMC 6.11 (unwind 18, unwinding assertions on); models of str::split / str::parse::<u32>; core::fmt, itertools and serde_json string layer are outside.', design='4/C20', technique='Kani/CBMC proof harnesses over the compiled crate (ordering, From) + bounded symbolic execution of the from_str MIR with z3; reference oracle validated against the real code'),
  'C04': dict(
     text='All paths of the tail of perform_update_check (after the attempt loop) are enumerated with the parse result, every response app\'s id/status/manifest, plan creation, the policy decision, each installer result, each report delivery and the reboot answer symbolic, for the stated app-set/response shapes: the announced states are exactly the ones the outcome calls for (iff table), the result lists the response apps in order with their own action; loop-error paths announce ErrorCheckingForUpdate once; run() announces Idle after each check with WaitingForReboot iff a reboot is pending. The iff direction and the per-app alignment hold on every path, which tests sample.',
     note=SM_NOTE, design='4/C04', technique=PATHS),
@@ -63,6 +75,7 @@ m = {
            'source_commits': [], 'add_only': True},
  'engines': [
    {'name': 'mirsym', 'path': 'mirsym/', 'serves_properties': sorted(CHECKS), 'kind_free_text': 'symbolic executor over `cargo +nightly rustc -- -Zunpretty=mir` of /repo (regenerated when the source hash changes), z3 python API + cvc5/z3 CLI cross-check'},
+   {'name': 'kani', 'path': 'kani/', 'serves_properties': ['C20'], 'kind_free_text': 'Kani 0.68 proof harness crate with a path dependency on /repo/omaha-client (rebuilt from the current tree on every run)'},
    {'name': 'replay', 'path': 'replay/', 'serves_properties': sorted(CHECKS), 'kind_free_text': 'native harness (path dependency on /repo/omaha-client) that executes the real code on solver models'},
  ],
  'checks': [],
